@@ -303,14 +303,20 @@ PlansC03(st) ==
         ELSE {})
 
 BoundedLabels == {l \in L : BoundOf(polys[l]) # NONE /\ polys[l].cls # "zero"}
+\* for Sonic a bound equal to max_degree shifts by zero: the artefact equals the unbounded one
+SameBound(a, b) == a = b \/ (S = "sonic" /\ {a, b} \subseteq {NONE, pp.maxdeg})
 PlansC04(st) ==
   \* made under d', labelled d
   {Plan("relabel", "not_accept", <<[M("relabel_bound") EXCEPT !.l = ld[1], !.d = ld[2]]>>) :
       ld \in {x \in BoundedLabels \X (BoundSet(keys) \cup (IF S = "ipa" THEN 1..EffSup(S, keys) ELSE {})) :
-                 x[2] # polys[x[1]].bound /\ x[2] >= DegOf(polys[x[1]])}}
-  \cup {Plan("drop_shifted", "not_accept", <<[M(kd) EXCEPT !.l = l]>>) :
-          l \in BoundedLabels, kd \in (IF S = "sonic" THEN {} ELSE {"drop_shifted", "drop_shifted_keep_label", "random_shifted"})}
-  \cup {Plan("unlabel", "not_accept", <<[M("relabel_bound") EXCEPT !.l = l, !.d = NONE]>>) : l \in BoundedLabels}
+                 ~SameBound(x[2], polys[x[1]].bound) /\ x[2] >= DegOf(polys[x[1]])}}
+  \* the degree-bound part dropped / randomised: for a polynomial that contributes to the proof
+  \* (for an unblinded constant, "no bound" is a true statement and the proof is trivial)
+  \cup {Plan("drop_shifted", "not_accept", <<[M(lk[2]) EXCEPT !.l = lk[1]]>>) :
+          lk \in {x \in BoundedLabels \X (IF S = "sonic" THEN {} ELSE {"drop_shifted", "drop_shifted_keep_label", "random_shifted"}) :
+                    Contributing(polys[x[1]]) \/ x[2] # "drop_shifted"}}
+  \cup {Plan("unlabel", "not_accept", <<[M("relabel_bound") EXCEPT !.l = l, !.d = NONE]>>) :
+          l \in {x \in BoundedLabels : (Contributing(polys[x]) \/ S # "sonic") /\ ~SameBound(NONE, polys[x].bound)}}
   \cup {Plan("foreign_shifted", "not_accept", <<[M("foreign_shifted") EXCEPT !.l = ll[1], !.l2 = ll[2]]>>) :
           ll \in {x \in BoundedLabels \X BoundedLabels : x[1] # x[2] /\ S # "sonic"}}
 
@@ -552,7 +558,7 @@ ClaimsTrue(st) ==
 \* --------------------------------------------------------------------------
 Init ==
   /\ pc = "setup" /\ pp = [maxdeg |-> 0, nv |-> NONE, cls |-> ""]
-  /\ keys = [sup |-> 0, hid |-> 0, nobounds |-> TRUE, bounds |-> <<>>, cls |-> ""]
+  /\ keys = [sup |-> 0, hid |-> 0, nobounds |-> TRUE, bounds |-> <<>>, cls |-> "", maxdeg |-> 0]
   /\ polys = <<>> /\ rng = TRUE /\ ops = <<>> /\ prs = <<>> /\ spP = <<>> /\ spAfter = <<>>
   /\ stmts = <<>> /\ adv = <<>> /\ advname = "" /\ want = "" /\ spV = <<>> /\ outs = <<>>
 
@@ -569,7 +575,8 @@ Trim ==
   /\ \E k \in KeySpace(pp.maxdeg) :
        LET c == TrimClass(S, pp.maxdeg, k) IN
        /\ HonestMode => c = "ok"
-       /\ keys' = [sup |-> k.sup, hid |-> k.hid, nobounds |-> k.nobounds, bounds |-> k.bounds, cls |-> c]
+       /\ keys' = [sup |-> k.sup, hid |-> k.hid, nobounds |-> k.nobounds, bounds |-> k.bounds, cls |-> c,
+                   maxdeg |-> EffMax(S, pp.maxdeg)]
        /\ pc' = IF c = "ok" THEN "commit" ELSE "done"
   /\ UNCHANGED <<pp, polys, rng, ops, prs, spP, spAfter, stmts, adv, advname, want, spV, outs>>
 
